@@ -154,19 +154,27 @@ def tpl_facts(c, prog=None):
     return ("any", [(k, neg) for k, neg in kinds])
 
 
+def tpl_atomize(fn, e):
+    from . import boolform as BF
+
+    e = hir.peel(e)
+    if hir.is_call(e):
+        k = _tpl_conj_kind(e)
+        if k is not None:
+            a = BF.atom("tpl.empty" if k[0] == "is_empty" else "tpl.allnonlit")
+            return BF.neg(a) if k[1] else a
+    return None
+
+
 def excl_tpl_literal(tr, path, missing):
+    from . import boolform as BF
+
     v = tr.variant_known(path, ())
     if not (isinstance(v, str) and v.endswith("Expr::Tpl")):
         return None
-    not_instrumentable = {("is_empty", True), ("all_non_lit", False)}
-    for c in path.conds:
-        tf = tpl_facts(c, tr.prog)
-        if tf is None:
-            continue
-        if tf[0] == "all" and any(x in not_instrumentable for x in tf[1]):
-            return "template literal with no substitution or with a literal substitution (documented exclusion)"
-        if tf[0] == "any" and all(x in not_instrumentable for x in tf[1]):
-            return "template literal with no substitution or with a literal substitution (documented exclusion)"
+    premises = BF.from_conds(tr.fn, path.conds, tpl_atomize, tr.prog)
+    if BF.entails(premises, BF.disj([BF.atom("tpl.empty"), BF.neg(BF.atom("tpl.allnonlit"))])):
+        return "template literal with no substitution or with a literal substitution (documented exclusion)"
     return None
 
 
